@@ -153,3 +153,46 @@ func Harness_C10_Authorizer() {
 	}
 	vCover("allowed")
 }
+
+// an authorizer that rewrites the message: the router acts on the message in
+// the form the authorizer left it
+type vRewriter struct{ to wamp.URI }
+
+func (z *vRewriter) Authorize(s *wamp.Session, m wamp.Message) (bool, error) {
+	switch mm := m.(type) {
+	case *wamp.Publish:
+		if mm.Topic == "alias.topic" {
+			mm.Topic = z.to
+		}
+	case *wamp.Call:
+		if mm.Procedure == "alias.proc" {
+			mm.Procedure = "real.proc"
+		}
+	}
+	return true, nil
+}
+
+func Harness_C10_Rewrite() {
+	to := []wamp.URI{"real.topic", "other.topic"}[vChoice("rewrite.to", 2)]
+	r := vNewRouter(&Config{RealmConfigs: []*RealmConfig{{URI: "realm1", AnonymousAuth: true, Authorizer: &vRewriter{to: to}, RequireLocalAuthz: true}}})
+	a := vAttach(r, "realm1", nil, 64)
+	b := vAttach(r, "realm1", nil, 64)
+	vAssert("attached", a != nil && b != nil)
+	b.send(&wamp.Subscribe{Request: 1, Topic: "real.topic"})
+	b.send(&wamp.Subscribe{Request: 2, Topic: "alias.topic"})
+	b.send(&wamp.Register{Request: 3, Procedure: "real.proc"})
+	b.drain()
+	arg := vInt64("arg")
+	a.send(&wamp.Publish{Request: 5, Topic: "alias.topic", Arguments: wamp.List{arg}})
+	evs := b.drain()
+	_, n := vFindMsg[*wamp.Event](evs)
+	if to == "real.topic" {
+		vAssert("delivered-on-the-rewritten-topic-only", n == 1)
+	} else {
+		vAssert("not-delivered-on-the-original-topic", n == 0)
+	}
+	a.send(&wamp.Call{Request: 6, Procedure: "alias.proc", Arguments: wamp.List{arg}})
+	inv, ni := vFindMsg[*wamp.Invocation](b.drain())
+	vAssert("call-routed-to-the-rewritten-procedure", ni == 1 && inv != nil && len(inv.Arguments) == 1 && inv.Arguments[0] == any(arg))
+	vCover("rewrite-checked")
+}
